@@ -3,7 +3,9 @@
 (* and the trace validation (LSTrace.tla).                                                          *)
 (* A client op: [k |-> "open" | "change" | "change0" | "close" | "def", u, c, v, id, line, ch]       *)
 (*   u: document, c: content id (> 0), v: version, id: request id of a definition request;           *)
-(*   "change0" is a didChange notification without content changes (it changes nothing).             *)
+(*   "change0" is a didChange notification without content changes, "save" a didSave, "cancel" a      *)
+(*   $/cancelRequest for request id: none of them changes a document or produces output; a cancelled  *)
+(*   request may be answered with an error instead of a result.                                        *)
 EXTENDS Integers, Sequences, FiniteSets
 
 IsEdit(op) == op.k \in {"open", "change"}
